@@ -151,7 +151,7 @@ func cmdCheck(w *World, cfg *RunCfg, prop, replay string, t0 time.Time) int {
 		results = append(results, w.formatDelegation()...)
 	}
 	results = append(results, w.apiForwarding(prop)...)
-	if prop == "C03" || prop == "C09" {
+	if prop == "C03" || prop == "C09" || prop == "C07" || prop == "C10" {
 		results = append(results, w.formatDiscipline()...)
 	}
 	if prop == "C18" {
